@@ -58,6 +58,20 @@ func vSameVals(a, b []any) bool {
 	return true
 }
 
+// vReentrantW is a destination that itself logs (a rotation notice, say)
+// through another logger before it consumes the payload it was given.
+type vReentrantW struct {
+	id    int
+	r     *vRec
+	inner *Entry
+}
+
+func (w *vReentrantW) Write(b []byte) (int, error) {
+	w.inner.Info("nested", "n", 1)
+	w.r.evs = append(w.r.evs, vEvent{W: w.id, P: string(b)})
+	return len(b), nil
+}
+
 func VH_C08() {
 	vProduction()
 	flags = LstdFlags &^ Lcaller
@@ -123,7 +137,24 @@ func VH_C08() {
 		// serializeAttrs sorts and de-duplicates the group's own member slice in place
 		vKnown("C08-group-members-sorted-in-place")
 	}
-	via := vChoose(3)
+	via := vChoose(4)
+	if via == 3 {
+		// the payload handed to a destination stays that call's own until Write returns, even if the
+		// destination logs through another logger meanwhile (sequential stand-in for a descheduled writer)
+		lg.SetTimeFormat("@")
+		lg.Info(msg, args...)
+		vAssert(len(rec.evs) == 1, "C08: exactly one Write")
+		ref := rec.evs[0].P
+		sink := &vRec{}
+		inner := New("inner").(*logimp).Entry
+		inner.SetWriter(&recW{7, sink}).SetLevel(TraceLevel).SetColorMode(false)
+		lg.SetWriter(&vReentrantW{0, rec, inner}).SetErrorWriter(&vReentrantW{0, rec, inner})
+		lg.Info(msg, args...)
+		vCover("C08:reentrant")
+		vAssert(len(rec.evs) == 2 && rec.evs[1].P == ref, "C08: a payload is complete and uncorrupted when its destination consumes it")
+		vKnown("")
+		return
+	}
 	if via == 2 {
 		// through the log/slog adapter: a handler derived so that the bound
 		// attribute slice has spare capacity, a record with its own attributes
